@@ -50,14 +50,16 @@ ARGS = "gsize, m_receivers, m_receivers_distance, m_donors, m_donors_count, m_ma
 FRESH = r"""
 __CPROVER_requires(0 < gsize && gsize <= %(NMAX)s && gsize == GSIZE)
 /* byte counts are single pre-computed constants (DFCC pattern-matches `n * c * sizeof(T)` wrongly) */
-__CPROVER_requires(__CPROVER_is_fresh(m_receivers, gsize * REC_BYTES))
-__CPROVER_requires(__CPROVER_is_fresh(m_receivers_distance, gsize * REC_BYTES))
+/* typed sizes (`n * sizeof(T)`, plain n) make the fresh object a typed array, which the back end handles several times faster
+ * than a byte array; DFCC mis-sizes `n * W * sizeof(T)`, so tables wider than one column keep a pre-computed byte count */
+__CPROVER_requires(__CPROVER_is_fresh(m_receivers, gsize * sizeof(size_t)))
+__CPROVER_requires(__CPROVER_is_fresh(m_receivers_distance, gsize * sizeof(double)))
 __CPROVER_requires(__CPROVER_is_fresh(m_donors, gsize * DON_BYTES))
-__CPROVER_requires(__CPROVER_is_fresh(m_donors_count, gsize * 8))
-__CPROVER_requires(__CPROVER_is_fresh(m_mask, gsize))
-__CPROVER_requires(__CPROVER_is_fresh(base_level, gsize))
-__CPROVER_requires(__CPROVER_is_fresh(nodes_status, gsize))
-__CPROVER_requires(__CPROVER_is_fresh(elevation, gsize * 8))
+__CPROVER_requires(__CPROVER_is_fresh(m_donors_count, gsize * sizeof(size_t)))
+__CPROVER_requires(__CPROVER_is_fresh(m_mask, gsize * sizeof(_Bool)))
+__CPROVER_requires(__CPROVER_is_fresh(base_level, gsize * sizeof(_Bool)))
+__CPROVER_requires(__CPROVER_is_fresh(nodes_status, gsize * sizeof(uint8_t)))
+__CPROVER_requires(__CPROVER_is_fresh(elevation, gsize * sizeof(double)))
 """ % dict(NMAX=NMAX_NODES)
 
 PRED = NS_DEFS + r"""
